@@ -15,6 +15,7 @@
  R6 tables        : penalty tables normalised at load: sorted by impairment value, boundaries and penalties from the same
                     rows, a (0, 0) row added only when all boundaries are positive.
  R5 order         : baud rates descending, then modes by (bit rate, offset) descending; first passing mode returned.
+ Rm memo          : every memoisation construct in the functions behind this property is keyed by everything it reads.
 """
 import ast
 
@@ -440,5 +441,10 @@ def r6_tables(ctx):
     ctx.need('R6.tables', 5)
 
 
+
+from ..memo import rule_for as _memo_rule
+
+RULES_MEMO = ('Rm.memo', _memo_rule('C13', 'a verdict would be taken on the figures of another propagation'))
+
 RULES = [('R6.tables', r6_tables), ('R1.verdict', r1_verdicts), ('R2.update-snr', r2_update_snr), ('R3.once', r3_once),
-         ('R4.penalties', r4_penalties), ('R5.order', r5_order)]
+         ('R4.penalties', r4_penalties), ('R5.order', r5_order), RULES_MEMO]
